@@ -35,6 +35,7 @@ const (
 	KTuple
 	KFunc
 	KArg // (part of) the entry point's request argument; Cell = field path
+	KFact // a boolean of unknown value; when it equals B the fact named Cell holds (Src: the transaction under whose lock)
 )
 
 type AV struct {
@@ -82,6 +83,8 @@ func (a AV) key() string {
 		return "(" + strings.Join(s, ";") + ")"
 	case KArg:
 		return "arg:" + a.Cell
+	case KFact:
+		return fmt.Sprintf("fact:%v:%s:%s", a.B, a.Cell, a.Src)
 	case KFunc:
 		var s []string
 		for _, t := range a.Binds {
@@ -600,6 +603,22 @@ func (t *TS) branch(s *State, ifi *ssa.If) (*State, *State) {
 		}
 		return nil, s
 	}
+	if a.K == KFact {
+		tv, fv = s.clone(), s
+		on := fv
+		if a.B {
+			on = tv
+		}
+		on.G.Cells[a.Cell] = AV{K: KBool, B: true, Src: a.Src}
+		if _, isC := cond.(*ssa.Const); !isC {
+			tv.Env[cond] = AV{K: KBool, B: true}
+			fv.Env[cond] = AV{K: KBool, B: false}
+		}
+		if neg {
+			return fv, tv
+		}
+		return tv, fv
+	}
 	tv, fv = s.clone(), s
 	setBool := func(st *State, b bool) {
 		if _, isC := cond.(*ssa.Const); !isC {
@@ -660,6 +679,32 @@ func (t *TS) branch(s *State, ifi *ssa.If) (*State, *State) {
 		return fv, tv
 	}
 	return tv, fv
+}
+
+// fhCompare: bo compares the generation of a locked inode with the generation
+// of a decoded client handle; returns the handle's request path and the
+// transaction that holds the inode.
+func (t *TS) fhCompare(s *State, bo *ssa.BinOp) (string, string, bool) {
+	for _, pr := range [][2]ssa.Value{{bo.X, bo.Y}, {bo.Y, bo.X}} {
+		n, fl, base, _ := loadedField(pr[0])
+		if n != t.c.V.Inode || fl != "Gen" {
+			continue
+		}
+		owner := ""
+		if base != nil {
+			if av := t.eval(s, base); len(av.Txns) == 1 {
+				owner = av.Txns[0]
+			}
+		}
+		if mc, f2 := fieldOfCallResult(pr[1]); mc != nil && f2 == "Gen" && mc.Call.StaticCallee() != nil && mc.Call.StaticCallee().Name() == "MakeFh" {
+			if p, ok := t.argPath(s, mc.Call.Args[0]); ok {
+				return p, owner, true
+			}
+		} else if ap, ok := t.argPath(s, pr[1]); ok && strings.HasPrefix(ap, "fh(") && strings.HasSuffix(ap, ").Gen") {
+			return strings.TrimSuffix(strings.TrimPrefix(ap, "fh("), ").Gen"), owner, true
+		}
+	}
+	return "", "", false
 }
 
 // nameKey identifies a name-typed value by function, parameter and field path.
@@ -856,6 +901,9 @@ func (t *TS) step(s *State, in ssa.Instruction) []*State {
 		case token.NOT:
 			if a := t.eval(s, x.X); a.K == KBool {
 				s.Env[x] = AV{K: KBool, B: !a.B}
+			} else if a.K == KFact {
+				a.B = !a.B
+				s.Env[x] = a
 			}
 		case token.MUL:
 			// load
@@ -933,6 +981,10 @@ func (t *TS) step(s *State, in ssa.Instruction) []*State {
 		if x.Op == token.EQL || x.Op == token.NEQ {
 			if r, ok := evalCmp(x.Op, t.eval(s, x.X), t.eval(s, x.Y)); ok {
 				s.Env[x] = AV{K: KBool, B: r}
+			} else if p, owner, ok := t.fhCompare(s, x); ok {
+				// the comparison of an inode's generation with a handle's, used as a value
+				// ("return ip.Inum == ino && ip.Gen == gen"): whoever branches on it learns the fact
+				s.Env[x] = AV{K: KFact, B: x.Op == token.EQL, Cell: "$fh:" + p, Src: owner}
 			}
 		}
 	case *ssa.Extract:
